@@ -62,13 +62,13 @@ type World struct {
 	TO2S    *fdo.TO2Server
 	Handler *fdohttp.Handler
 
-	Reuse        bool
-	Modules      OwnerModules
-	RvInfo       [][]protocol.RvInstruction
-	AcceptTTL    func(requested uint32) (uint32, error) // nil: no AcceptVoucher policy
-	OwnerMTU     *uint16
-	modState     sync.Map // token -> *modIter
-	CAFamily     string
+	Reuse     bool
+	Modules   OwnerModules
+	RvInfo    [][]protocol.RvInstruction
+	AcceptTTL func(requested uint32) (uint32, error) // nil: no AcceptVoucher policy
+	OwnerMTU  *uint16
+	modState  sync.Map // token -> *modIter
+	CAFamily  string
 }
 
 type modIter struct {
